@@ -29,6 +29,9 @@ SOURCE_FUNCS = [
     (_PL, "PropertyDescriptor"), (_PL, "ufunc_requires_additional_input"), (_PL, "HasPropertyLayers.get_neighborhood_mask"),
     (_DS + "cell.py", "Cell.add_agent"), (_DS + "cell.py", "Cell.remove_agent"), (_DS + "cell.py", "Cell.is_empty"),
     (_DS + "cell_agent.py", "HasCell"), (_DS + "cell_agent.py", "BasicMovement"), (_DS + "grid.py", "Grid.__init__"),
+    (_DS + "grid.py", "Grid._connect_single_cell_2d"), (_DS + "grid.py", "Grid._connect_single_cell_nd"),
+    (_DS + "grid.py", "HexGrid._connect_cells_2d"), (_DS + "cell_agent.py", "CellAgent"),
+    (_PL, "PropertyLayer.aggregate"),
     (_SP, "PropertyLayer"), (_SP, "_PropertyGrid"), (_SP, "ufunc_requires_additional_input"),
     (_SP, "is_single_argument_function"), (_SP, "_Grid.move_agent"), (_SP, "_Grid.is_cell_empty"),
     (_SP, "SingleGrid.place_agent"), (_SP, "SingleGrid.move_agent"), (_SP, "SingleGrid.remove_agent"),
@@ -57,17 +60,20 @@ TRUSTED_BASE = [
 ASSUMPTIONS = [
     "values are bool, int64 without overflow, or dyadic floats (multiples of 1/16, modelled as Z scaled by 16; "
     "float multipliers are integers) so that all arithmetic is exact",
-    "excluded from the generators: dtype-changing operation/dtype pairs (int layer with float value, logical_not on "
-    "int/float layers, arithmetic ufuncs on bool layers, comparisons returning non-bool), conditions that are ufuncs, "
-    "indices with fewer components than the array has axes, masks of a shape other than the grid's",
+    "modify_cells / modify_cell are fed exactly the admissible (layer dtype, form, operation, operand dtype) combinations = "
+    "those whose NumPy result keeps the layer's dtype (C11_dtype_boundary; operand not wider than the layer, no negative "
+    "of bools, python max/min only with an operand of the layer's own dtype because np.vectorize takes its output type "
+    "from the first element); the result dtype of ALL combinations is checked against NumPy by the probe operations; "
+    "values after a dtype change are not modelled; also excluded: conditions that are ufuncs, indices with fewer "
+    "components than the array has axes, masks of a shape other than the grid's",
     "the built-in 'empty' layer is read (conditions, only_empty) but never written or removed by the history itself; "
-    "cell capacities are None, 1 or 2 (the emptiness theorem assumes capacity >= 0); grids are not tori; "
-    "move_relative is issued on Moore / von Neumann grids only (hex connection keys belong to C07)",
+    "cell capacities are None, 1 or 2 (the emptiness theorem assumes capacity >= 0); discrete grids with and without "
+    "torus; move_relative on Moore, von Neumann and hex grids (hex offset tables re-extracted from grid.py)",
     "order of select_cells' list form is row-major (np.where order), compared in order",
-    "get_neighborhood_mask is only called where the neighbourhood is non-empty (finding C11-4: an empty neighbourhood - "
-    "1x1 grid or isolated cell without include_center - raises IndexError in both implementations; patch proposed in "
-    "fixes/C11-4, not applied to /repo); the neighbourhood itself is C07's / C09's subject and is a parameter of "
-    "the translated function",
+    "get_neighborhood_mask: the neighbourhood itself is C07's / C09's subject; the one the grid reports is handed to the "
+    "model as an outcome (legality-checked: inside the grid); legacy hex grids are skipped (finding C11-5: the inherited "
+    "method passes `moore` to _HexGrid.get_neighborhood -> TypeError)",
+    "aggregate: np.sum / np.max / np.min, and np.mean where the number of cells is a power of two (exact division)",
 ]
 E_VALUE, E_KEY, E_INDEX, E_ATTR, E_TYPE, E_EXC = 1, 2, 3, 4, 5, 6
 DT_BOOL, DT_INT, DT_FLOAT = 0, 1, 2
@@ -86,6 +92,7 @@ class _G:
     def __init__(self, rng, impl, cls, dims, cap=0):
         self.rng, self.impl, self.cls, self.dims = rng, impl, cls, list(dims)
         self.cap = cap
+        self.torus = False
         self.multi = "Multi" in cls
         self.handles = []          # (name, dt, dims)
         self.grid = {}             # name -> handle
@@ -113,19 +120,30 @@ class _G:
         return [r.choice(CMPS), self.val(dt)]
 
     def fop(self, dt):
-        """(form, fop, hasval)"""
+        """(form, fop, hasval); fop = [kind, k, vdt]: the operand has dtype vdt <= dt (the admissible set: the
+        layer's dtype is preserved); k in the operand's own scale (mul: the integer multiplier)"""
         r = self.rng
-        if dt == DT_BOOL:
+        if r.random() < (0.5 if dt == DT_BOOL else 0.12):
             return r.choice([("uun", ["not"], False), ("py", ["not"], False), ("py", ["not"], True)])
         kind = r.choice(["add", "add", "mul", "max", "min", "neg"])
         if kind == "neg":
-            return r.choice([("uun", ["neg"], False), ("py", ["neg"], False)])
-        k = r.choice([-1, 0, 2, 3]) if kind == "mul" else self.val(dt)
+            if dt == DT_BOOL:
+                kind = "add"
+            else:
+                return r.choice([("uun", ["neg"], False), ("py", ["neg"], False)])
+        vdt = dt if r.random() < 0.7 else r.randint(0, dt)
+        if kind == "mul":
+            k = r.randint(0, 1) if vdt == DT_BOOL else r.choice([-1, 0, 2, 3])
+        else:
+            k = self.val(vdt)
         form = r.choice(["ubin", "ubin", "py"])
+        if form == "py" and kind in ("max", "min"):
+            vdt = dt              # python max / min with an operand of another dtype: np.vectorize's output type is data dependent
+            k = self.val(vdt)
         hasval = True if form == "ubin" else r.random() < 0.3
         if form == "ubin" and r.random() < 0.08:
             hasval = False                                   # rejected: value missing
-        return (form, [kind, k], hasval)
+        return (form, [kind, k, vdt], hasval)
 
     def coord(self, wild=0.0):
         r = self.rng
@@ -253,18 +271,28 @@ class _G:
             self.ops.append(["move", a, c])
             if accepts(c, a):
                 self.agents[a] = c
-        elif k < 0.84 and self.impl == "discrete" and self.cls != "HexGrid":
+        elif k < 0.84 and self.impl == "discrete":
             a = r.choice(list(self.agents))
             nd = len(self.dims)
             d = [r.choice([-1, 0, 0, 1]) for _ in range(nd)]
             if r.random() < 0.5:
                 d = [0] * nd
                 d[r.randrange(nd)] = r.choice([-1, 1])
+            if self.cls == "HexGrid" and r.random() < 0.7:
+                d = list(r.choice([(-1, -1), (0, -1), (-1, 0), (1, 0), (-1, 1), (0, 1), (1, -1), (1, 1)]))
             self.ops.append(["mrel", a, d])
-            moore = self.cls == "OrthogonalMooreGrid"
+            c0 = self.agents[a]
             nz = sum(1 for x in d if x)
-            t = [x + y for x, y in zip(self.agents[a], d)]
-            if (nz >= 1 if moore else nz == 1) and all(0 <= x < m for x, m in zip(t, self.dims)) and accepts(t, a):
+            t = [x + y for x, y in zip(c0, d)]
+            if self.torus:
+                t = [x % m for x, m in zip(t, self.dims)]
+            if self.cls == "HexGrid":
+                tab = ([(-1, -1), (0, -1), (-1, 0), (1, 0), (-1, 1), (0, 1)] if c0[1] % 2
+                       else [(0, -1), (1, -1), (-1, 0), (1, 0), (0, 1), (1, 1)])
+                okd = tuple(d) in tab
+            else:
+                okd = nz >= 1 if self.cls == "OrthogonalMooreGrid" else nz == 1
+            if okd and all(0 <= x < m for x, m in zip(t, self.dims)) and (accepts(t, a) or t == c0):
                 self.agents[a] = t
         else:
             a = r.choice(list(self.agents))
@@ -329,6 +357,11 @@ class _G:
     def op_select(self):
         r = self.rng
         if r.random() < 0.12:
+            ref, h = self.ref()
+            if ref is not None:
+                self.ops.append(["agg", ref, r.choice([0, 0, 1, 2, 3])])
+                return
+        if r.random() < 0.12:
             self.ops.append(["nmask", list(r.choice(self.coords)), r.random() < 0.5, r.choice([1, 1, 2]), r.random() < 0.5])
             return
         names = list(self.grid)
@@ -375,6 +408,7 @@ def _random_case(rng, impl=None, n_ops=None):
         cls = rng.choice(["SingleGrid", "SingleGrid", "MultiGrid", "MultiGrid", "HexSingleGrid", "HexMultiGrid"])
     cap = rng.choice([0, 0, 0, 1, 1, 2]) if impl == "discrete" else 0
     g = _G(rng, impl, cls, dims, cap)
+    g.torus = impl == "discrete" and rng.random() < 0.35
     for _ in range(rng.choice([1, 2, 2, 3])):
         g.add_new_layer(attach=True)
     n_ops = n_ops or rng.randint(6, 20)
@@ -382,7 +416,29 @@ def _random_case(rng, impl=None, n_ops=None):
             + [g.op_layers] * 3 + [g.op_select] * 6)
     while len(g.ops) < n_ops:
         rng.choice(menu)()
-    return {"impl": impl, "cls": cls, "dims": list(dims), "cap": cap, "ops": g.ops}
+    return {"impl": impl, "cls": cls, "dims": list(dims), "cap": cap, "torus": g.torus, "ops": g.ops}
+
+
+def _probe_cases():
+    """every (layer dtype, form, operation, operand dtype) of the DSL whose result dtype NumPy fixes: the dtype
+    modify_cells leaves behind, against Model/PropLayer.v:dtype_result (C11_dtype_boundary)"""
+    probes = []
+    for ldt in (DT_BOOL, DT_INT, DT_FLOAT):
+        for vdt in (DT_BOOL, DT_INT, DT_FLOAT):
+            for kind in ("add", "mul", "max", "min"):
+                for form in ("ubin", "py"):
+                    if form == "py" and kind in ("max", "min") and vdt != ldt:
+                        continue        # python max / min return one of their arguments: the dtype depends on the data
+                    k = 1 if (vdt == DT_BOOL or kind == "mul") else (3 if vdt == DT_INT else 8)
+                    probes.append(["probe", ldt, form, [kind, k], vdt])
+        for kind, forms in (("not", ("uun", "py")), ("neg", ("uun", "py"))):
+            for form in forms:
+                probes.append(["probe", ldt, form, [kind], ldt])
+    out = []
+    for impl, cls in (("discrete", "OrthogonalMooreGrid"), ("legacy", "SingleGrid")):
+        for s0 in range(0, len(probes), 30):
+            out.append({"impl": impl, "cls": cls, "dims": [2, 2], "cap": 0, "torus": False, "ops": probes[s0:s0 + 30]})
+    return out
 
 
 def gen_cases(rng, tier):
@@ -390,9 +446,10 @@ def gen_cases(rng, tier):
     n = 700 if tier == "quick" else 9000
     for _ in range(n):
         cases.append(_random_case(rng))
+    cases += _probe_cases()
     # the structured agent histories (every rejection, shared and full cells) also go through the model
     for c in enumerate_cases("quick"):
-        if c["ops"] and c["ops"][0][0] == "place":
+        if c["ops"] and (c["ops"][0][0] == "place" or any(o[0] in ("mrel", "nmask") for o in c["ops"])):
             cases.append(c)
     return cases
 
@@ -404,7 +461,7 @@ def enumerate_cases(tier, broken=False):
     import random
 
     rng = random.Random(4242)
-    shapes = {"discrete": [(2, 2), (2, 3), (2, 2, 2)], "legacy": [(2, 2), (2, 3)]}
+    shapes = {"discrete": [(1, 1), (2, 2), (2, 3), (2, 2, 2)], "legacy": [(1, 1), (2, 2), (2, 3)]}
     if tier == "thorough":
         shapes = {"discrete": [(1, 1), (2, 2), (2, 3), (3, 3), (2, 2, 2)], "legacy": [(1, 1), (2, 2), (2, 3), (3, 3)]}
     for impl, shs in shapes.items():
@@ -475,7 +532,19 @@ def enumerate_cases(tier, broken=False):
             nd = len(dims)
             step = [0] * (nd - 1) + [1]
             if impl == "discrete":
-                for cls in ("OrthogonalMooreGrid", "OrthogonalVonNeumannGrid"):
+                sweep = [list(d) for d in itertools.product((-1, 0, 1), repeat=nd)]
+                for cls in ("OrthogonalMooreGrid", "OrthogonalVonNeumannGrid") + (("HexGrid",) if nd == 2 else ()):
+                    for torus in (False, True):
+                        # every direction of {-1,0,1}^n from two cells of different row parity, with and without the torus;
+                        # the neighbourhood mask of every cell (empty neighbourhoods on 1-cell-wide grids), aggregates
+                        ops = [["create", 1, DT_INT, 2], ["place", 1, c0], ["place", 2, c1]]
+                        for d in sweep:
+                            ops += [["mrel", 1, d], ["move", 1, c0], ["mrel", 2, d], ["move", 2, c1]]
+                        for c in coords[:6]:
+                            for ic in (False, True):
+                                ops.append(["nmask", c, ic, 1, True])
+                        ops += [["agg", ["n", 1], k] for k in (0, 1, 2, 3)] + [["agg", ["n", 0], 0], *sel]
+                        yield {"impl": impl, "cls": cls, "dims": list(dims), "cap": 0, "torus": torus, "ops": ops}
                     for cap in (0, 1, 2):
                         ops = [["place", 1, c0], ["place", 2, c0], ["place", 3, c0], *sel, ["place", 4, c1], ["move", 4, c0],
                                ["mrel", 4, [-x for x in step]], ["mrel", 4, [0] * nd], ["mrel", 4, [1] * nd], ["mrel", 1, step],
@@ -484,7 +553,12 @@ def enumerate_cases(tier, broken=False):
                         yield {"impl": impl, "cls": cls, "dims": list(dims), "cap": cap, "ops": ops}
             else:
                 for cls in ("SingleGrid", "MultiGrid", "HexSingleGrid", "HexMultiGrid"):
-                    ops = [["place", 1, c0], ["place", 2, c0], ["place", 3, c1], *sel, ["move", 3, c0], ["move", 1, c0],
+                    if cls.startswith("Hex"):
+                        masks = []
+                    else:
+                        masks = [["nmask", c, ic, r, mo] for c in coords[:4] for ic in (False, True) for r in (1, 2) for mo in (False, True)]
+                    ops = [*masks, ["new", 1, DT_FLOAT, list(dims), 8], ["add", 0], ["agg", ["h", 0], 0], ["agg", ["n", 1], 3],
+                           ["place", 1, c0], ["place", 2, c0], ["place", 3, c1], *sel, ["move", 3, c0], ["move", 1, c0],
                            ["move", 1, c1], *sel, ["rm", 2], ["rm", 1], *sel, ["rm", 3], *sel, ["place", 2, c0], ["move", 2, c0], *sel]
                     yield {"impl": impl, "cls": cls, "dims": list(dims), "cap": 0, "ops": ops}
     # random histories with more selects
@@ -530,17 +604,39 @@ def _cond_z(cd, v):
     return {"gt": v > k, "ge": v >= k, "lt": v < k, "le": v <= k, "eq": v == k, "ne": v != k}[cd[0]]
 
 
-def _fop_z(f, v):
-    if f[0] == "add":
-        return v + f[1]
+def _vdt(f, ldt):
+    return f[2] if len(f) > 2 else ldt
+
+
+def _k_layer(f, ldt):
+    """the operand in the layer's scale"""
+    if f[0] == "mul" or len(f) < 2:
+        return f[1] if len(f) > 1 else None
+    return f[1] * 16 if (ldt == DT_FLOAT and _vdt(f, ldt) != DT_FLOAT) else f[1]
+
+
+def _operand(f, ldt):
+    """the python value handed to the implementation"""
+    if len(f) < 2:
+        return None
+    vdt = _vdt(f, ldt)
     if f[0] == "mul":
-        return v * f[1]
+        return bool(f[1]) if vdt == DT_BOOL else (int(f[1]) if vdt == DT_INT else float(f[1]))
+    return _pyval(vdt, f[1])
+
+
+def _fop_z(f, v, ldt=DT_INT):
+    k = _k_layer(f, ldt)
+    if f[0] == "add":
+        return int(bool(v) or bool(k)) if ldt == DT_BOOL else v + k
+    if f[0] == "mul":
+        return v * k
     if f[0] == "max":
-        return max(v, f[1])
+        return max(v, k)
     if f[0] == "min":
-        return min(v, f[1])
+        return min(v, k)
     if f[0] == "not":
-        return 0 if v else 1
+        return (16 if ldt == DT_FLOAT else 1) if v == 0 else 0
     if f[0] == "neg":
         return -v
     raise ValueError(f)
@@ -551,12 +647,7 @@ def _mk_operation(dt, form, f):
     import numpy as np
 
     kind = f[0]
-    if kind == "mul":
-        k = bool(f[1]) if dt == DT_BOOL else (int(f[1]) if dt == DT_INT else float(f[1]))
-    elif kind in ("add", "max", "min"):
-        k = _pyval(dt, f[1])
-    else:
-        k = None
+    k = _operand(f, dt)
     if form == "ubin":
         return {"add": np.add, "mul": np.multiply, "max": np.maximum, "min": np.minimum}[kind], k
     if form == "uun":
@@ -605,7 +696,7 @@ class _Run:
                 from mesa.discrete_space.property_layer import PropertyDescriptor, PropertyLayer
 
                 self.PL, self.PD = PropertyLayer, PropertyDescriptor
-                self.grid = getattr(ds, case["cls"])(self.dims, torus=False, capacity=(case.get("cap") or None),
+                self.grid = getattr(ds, case["cls"])(self.dims, torus=bool(case.get("torus")), capacity=(case.get("cap") or None),
                                                      random=random.Random(1))
                 self.handles = [self.grid._mesa_property_layers["empty"]]
             else:
@@ -815,7 +906,7 @@ def _exc_kind(e):
 SITE = {"add": "add_property_layer", "create": "add_property_layer", "remove": "remove_property_layer",
         "lwrite": "set_cell", "modcell": "modify_cell", "modcells": "modify_cells", "set": "set_cells",
         "setarr": "set_cells", "select": "select_cells", "place": "place_agent", "cellwrite": "cell-write",
-        "move": "move_agent", "mrel": "move_relative", "rm": "remove_agent", "new": "PropertyLayer", "nmask": "get_neighborhood_mask"}
+        "move": "move_agent", "mrel": "move_relative", "rm": "remove_agent", "new": "PropertyLayer", "nmask": "get_neighborhood_mask", "agg": "aggregate", "probe": "modify_cells-dtype"}
 
 
 def run_impl(case):
@@ -826,6 +917,7 @@ def run_impl(case):
     warnings.simplefilter("ignore")
     R = _Run(case)
     obs = []
+    ofm = [{} for _ in case["ops"]]     # what the model additionally needs: outcomes / the resolved layer dtype
     discrete = R.discrete
     for i, op in enumerate(case["ops"]):
         kind = op[0]
@@ -905,6 +997,7 @@ def run_impl(case):
                 else:
                     hi = R.hindex(Lr)
                     dt = R.sh_dt[hi]
+                    ofm[i]["ldt"] = dt
                     ldims = R.sh_dims[hi]
                     byname = op[1][0] == "n"
                     if kind == "lwrite":
@@ -958,7 +1051,7 @@ def run_impl(case):
                             Lr.modify_cells(fn, value, cf)
                         for c, x in R.sh[hi].items():
                             if cd is None or _cond_z(cd, x):
-                                R.sh[hi][c] = _fop_z(f, x)
+                                R.sh[hi][c] = _fop_z(f, x, dt)
                     else:
                         _, _, c, form, f, hasval = op
                         fn, k = _mk_operation(dt, form, f)
@@ -972,7 +1065,7 @@ def run_impl(case):
                         value = (k if k is not None else 1) if hasval else None
                         Lr.modify_cell(tuple(c), fn, value)
                         if cn is not None:
-                            R.sh[hi][cn] = _fop_z(f, R.sh[hi][cn])
+                            R.sh[hi][cn] = _fop_z(f, R.sh[hi][cn], dt)
                     result = ("ok", [])
             elif kind == "select":
                 _, conds, exts, masks, only_empty, aslist, bare = op
@@ -1035,28 +1128,66 @@ def run_impl(case):
                     result = ("ok", [int(gm_arr[c]) for c in R.coords])
             elif kind == "nmask":
                 # get_neighborhood_mask: True exactly on the neighbourhood the grid itself reports (C07 / C09 own the
-                # neighbourhood; the translated body is covered by C11_nbhd_mask_of_source); the model skips the op
+                # neighbourhood: it is handed to the model as an outcome), all False when that is empty
                 _, c, ic, r, moore = op
                 c = tuple(c)
                 if c not in R.coords or (case["cls"].startswith("Hex") and not discrete):
+                    # legacy hex grids: finding C11-5 (the inherited method passes `moore` to _HexGrid.get_neighborhood)
                     result = ("skip",)
                 else:
                     if discrete:
                         nb = {tuple(x.coordinate) for x in R.grid._cells[c].get_neighborhood(radius=r, include_center=ic)}
                     else:
                         nb = {tuple(int(v) for v in x) for x in R.grid.get_neighborhood(c, moore, ic, r)}
-                    if not nb:
-                        # reported finding (reports/g11.md, fixes/C11-4): an EMPTY neighbourhood makes both
-                        # get_neighborhood_mask implementations raise IndexError; not executed, see ASSUMPTIONS
-                        obs.append([-2] + R.view())
-                        continue
+                    ofm[i]["nb"] = [list(x) for x in sorted(nb)]
                     m = (R.grid.get_neighborhood_mask(c, include_center=ic, radius=r) if discrete
                          else R.grid.get_neighborhood_mask(c, moore, ic, r))
                     got = {k for k in R.coords if bool(m[k])}
-                    if tuple(m.shape) != R.dims or got != nb:
+                    if tuple(m.shape) != R.dims or got != nb or m.dtype.kind != "b":
                         R.fail("get_neighborhood_mask/wrong-mask", i,
-                               f"get_neighborhood_mask({c}, include_center={ic}, radius={r}) is True on {sorted(got)}, the neighbourhood is {sorted(nb)}")
-                    result = ("skip",)
+                               f"get_neighborhood_mask({c}, include_center={ic}, radius={r}) is True on {sorted(got)} "
+                               f"(shape {m.shape}, dtype {m.dtype}), the neighbourhood is {sorted(nb)}")
+                    result = ("ok", [int(bool(m[k])) for k in R.coords] if tuple(m.shape) == R.dims else [-5])
+            elif kind == "agg":
+                _, ref, akind = op
+                Lr = R.resolve(ref)
+                n = len(R.coords)
+                if Lr is None or (akind == 3 and n & (n - 1)):
+                    result = ("skip",)          # the mean is only observed where the division is exact (n a power of two)
+                else:
+                    hi = R.hindex(Lr)
+                    dt = R.sh_dt[hi]
+                    fn = {0: np.sum, 1: np.max, 2: np.min, 3: np.mean}[akind]
+                    r = Lr.aggregate(fn) if discrete else Lr.aggregate_property(fn)
+                    vals = list(R.sh[hi].values())
+                    scale = 16 if dt == DT_FLOAT else 1
+                    if akind == 3:
+                        got = float(r) * len(vals) * scale
+                        exp = [sum(vals), len(vals)]
+                        gotl = [int(got) if got == int(got) else 10 ** 9 + 7, len(vals)]
+                    else:
+                        exp = [{0: sum, 1: max, 2: min}[akind](vals)]
+                        gotl = [_enc(r)]
+                    if gotl != exp:
+                        R.fail("aggregate/wrong-value", i,
+                               f"{op}: {['sum', 'max', 'min', 'mean'][akind]} over layer {Lr.name!r} gives {r!r} (= {gotl} in layer units), the values {vals} give {exp}")
+                    result = ("ok", gotl)
+            elif kind == "probe":
+                # the dtype modify_cells leaves behind on a fresh 2x2 layer of dtype ldt for an operand of dtype vdt
+                _, ldt, form, f, vdt = op
+                dtype = {DT_BOOL: bool, DT_INT: int, DT_FLOAT: float}[ldt]
+                init = {DT_BOOL: True, DT_INT: 2, DT_FLOAT: 1.5}[ldt]
+                if discrete:
+                    P = R.PL("probe", (2, 2), default_value=init, dtype=dtype)
+                else:
+                    P = R.PL("probe", 2, 2, init, dtype=dtype)
+                fn, k = _mk_operation(ldt, form, [*f[:2], vdt] if len(f) > 1 else f)
+                try:
+                    P.modify_cells(fn, k if form == "ubin" else None)
+                    code = _kind_dt(P.data)
+                except TypeError:
+                    code = 8
+                result = ("ok", [code])
             elif kind in ("place", "move", "mrel", "rm"):
                 a = op[1]
 
@@ -1107,19 +1238,28 @@ def run_impl(case):
                         result = ("ok", [])
                 elif kind == "mrel":
                     d = tuple(op[2])
-                    if not discrete or a not in R.sh_agents or case["cls"] == "HexGrid":
+                    if not discrete or a not in R.sh_agents:
                         result = ("skip",)
                     else:
                         ag = R.agents[a]
                         c0 = R.sh_agents[a]
                         t = tuple(x + y for x, y in zip(c0, d))
+                        if case.get("torus"):
+                            t = tuple(x % m for x, m in zip(t, R.dims))
                         nzc = sum(1 for x in d if x)
-                        moore = case["cls"] == "OrthogonalMooreGrid"
-                        ok_dir = (len(d) == len(c0) and all(-1 <= x <= 1 for x in d)
-                                  and (nzc >= 1 if moore else nzc == 1) and t in R.grid._cells)
+                        cls = case["cls"]
+                        if cls == "HexGrid":
+                            # the statement's own hex adjacency (offset layout, parity of the second coordinate)
+                            tab = ([(-1, -1), (0, -1), (-1, 0), (1, 0), (-1, 1), (0, 1)] if c0[1] % 2
+                                   else [(0, -1), (1, -1), (-1, 0), (1, 0), (0, 1), (1, 1)])
+                            is_offset = d in tab
+                        else:
+                            is_offset = (len(d) == len(c0) and all(-1 <= x <= 1 for x in d)
+                                         and (nzc >= 1 if cls == "OrthogonalMooreGrid" else nzc == 1))
+                        ok_dir = is_offset and t in R.grid._cells
                         if not ok_dir:
                             expect_err = E_VALUE
-                        elif rejects(t):
+                        elif rejects(t) and t != c0:
                             expect_err = E_EXC
                         ag.move_relative(d)
                         R.sh_agents[a] = t
@@ -1187,7 +1327,7 @@ def run_impl(case):
             R.check_state(i, op)
         except Exception as e:  # noqa: BLE001
             R.fail(f"{SITE[kind]}/state-unreadable", i, f"after {op} the state can no longer be read: {type(e).__name__}: {e}")
-    return {"obs": obs, "failures": R.failures}
+    return {"obs": obs, "failures": R.failures, "ops_for_model": ofm}
 
 
 # ------------------------------------------------------------------ model side
@@ -1203,15 +1343,24 @@ def _ocond(cd):
     return "None" if cd is None else f"(Some {_cond(cd)})"
 
 
-def _fop(f):
-    return {"add": "FAdd", "mul": "FMul", "max": "FMax", "min": "FMin"}[f[0]] + " " + L.z(f[1]) if len(f) > 1 else {"not": "FNot", "neg": "FNeg"}[f[0]]
+def _fop(f, ldt=DT_INT):
+    """the operation resolved against the layer's dtype ldt (operand converted to the layer's scale; `+` on a bool
+    layer is logical or; logical_not on a float layer yields 1.0 / 0.0)"""
+    if len(f) > 1:
+        k = _k_layer(f, ldt)
+        name = {"add": "FOr" if ldt == DT_BOOL else "FAdd", "mul": "FMul", "max": "FMax", "min": "FMin"}[f[0]]
+        return f"{name} {L.z(k)}"
+    return {"not": "FNotF" if ldt == DT_FLOAT else "FNot", "neg": "FNeg"}[f[0]]
 
 
 FORM = {"ubin": "UBin", "uun": "UUn", "py": "PyFn"}
 
 
-def _op(case, op):
+def _op(case, op, extra=None):
     k = op[0]
+    extra = extra or {}
+    ldt = extra.get("ldt")
+    ldt = DT_INT if ldt is None else ldt
     if k == "new":
         return f"NewLayer {L.z(op[1])} {L.z(op[2])} {L.zlist(op[3])} {L.z(op[4])}"
     if k == "create":
@@ -1229,20 +1378,33 @@ def _op(case, op):
     if k == "setarr":
         return f"SetArray {_ref(op[1])} {L.zlist(op[2])}"
     if k == "modcells":
-        return f"ModifyCells {_ref(op[1])} {FORM[op[2]]} ({_fop(op[3])}) {L.b(op[4])} {_ocond(op[5])}"
+        return f"ModifyCells {_ref(op[1])} {FORM[op[2]]} ({_fop(op[3], ldt)}) {L.b(op[4])} {_ocond(op[5])}"
     if k == "modcell":
-        return f"ModifyCell {_ref(op[1])} {L.zlist(op[2])} {FORM[op[3]]} ({_fop(op[4])}) {L.b(op[5])}"
+        return f"ModifyCell {_ref(op[1])} {L.zlist(op[2])} {FORM[op[3]]} ({_fop(op[4], ldt)}) {L.b(op[5])}"
     if k == "select":
         conds = L.lst([L.pair(L.z(n), _cond(cd)) for n, cd in op[1]])
         exts = L.lst([L.pair(L.z(n), L.z(m)) for n, m in op[2]])
         masks = L.lst([L.lst([L.b(x) for x in m]) for m in op[3]])
         return f"Select {conds} {exts} {masks} {L.b(op[4])} {L.b(op[5])}"
     if k == "nmask":
-        return "Skip"
-    if k == "mrel":
-        if case["impl"] != "discrete" or case["cls"] == "HexGrid":
+        if "nb" not in extra:
             return "Skip"
-        return f"MoveRel {L.z(op[1])} {L.zlist(op[2])} {L.b(case['cls'] == 'OrthogonalMooreGrid')}"
+        return f"NbhdMask {L.lst([L.zlist(c) for c in extra['nb']])}"
+    if k == "agg":
+        n = 1
+        for d in case["dims"]:
+            n *= d
+        if op[2] == 3 and n & (n - 1):
+            return "Skip"
+        return f"Aggregate {_ref(op[1])} {L.z(op[2])}"
+    if k == "probe":
+        f = [*op[3][:2], op[4]] if len(op[3]) > 1 else op[3]
+        return f"ProbeDtype {L.z(op[1])} {FORM[op[2]]} ({_fop(f, op[1])}) {L.z(op[4])}"
+    if k == "mrel":
+        if case["impl"] != "discrete":
+            return "Skip"
+        geom = {"OrthogonalMooreGrid": 0, "OrthogonalVonNeumannGrid": 1, "HexGrid": 2}[case["cls"]]
+        return f"MoveRel {L.z(op[1])} {L.zlist(op[2])} {geom} {L.b(bool(case.get('torus')))}"
     if k == "place":
         return f"Place {L.z(op[1])} {L.zlist(op[2])}"
     if k == "move":
@@ -1253,7 +1415,10 @@ def _op(case, op):
 
 
 def coq_case(case):
-    ops = L.lst([_op(case, o) for o in case["ops"]])
+    extras = case.get("_ops_for_model") or [{}] * len(case["ops"])
+    if len(extras) != len(case["ops"]):
+        extras = [{}] * len(case["ops"])
+    ops = L.lst([_op(case, o, e) for o, e in zip(case["ops"], extras)])
     return (f"{{| c_discrete := {L.b(case['impl'] == 'discrete')}; c_multi := {L.b('Multi' in case['cls'])}; "
             f"c_cap := {L.z(case.get('cap') or 0)}; c_dims := {L.zlist(case['dims'])}; c_ops := {ops} |}}")
 
